@@ -212,6 +212,15 @@ Definition mn_check (m : mnet) : bool :=
          forallb (fun f => is_cliqueb (uedges (mgraph m)) (fvars f)) (mfactors m)
   end.
 
+(* MarkovNetwork.add_factors(new...) (FactorGraph.add_factors alike): the factors are appended one by one;
+   the first one mentioning a variable that is not a node raises ValueError, AFTER the earlier ones were
+   appended (false = raised) *)
+Fixpoint add_factors (ns : list node) (fs new : list factor) : list factor * bool :=
+  match new with
+  | [] => (fs, true)
+  | f :: r => if subsetn (fvars f) ns then add_factors ns (fs ++ [f]) r else (fs, false)
+  end.
+
 (* MarkovNetwork.to_factor_graph(): variable nodes, one factor node NAMED AFTER THE SCOPE
    ("phi_" + "_".join(scope): two factors with the same scope list share one node), an edge from each
    scope variable to the factor node, the factor list itself unchanged *)
